@@ -390,7 +390,7 @@ class C04(runner.Check):
             viol.append(('unfinished-operation', f'{oname} left done=False by the batch'))
             break
         for name in old_studies - set(snap['studies']):
-          o, d = O.OWNER_IDS.index(name.split('/')[1]), O.STUDY_IDS.index(name.split('/')[3])
+          o, d = O.OWNER_IDS.index(name.split('/')[1]), (O.STUDY_IDS.index(name.split('/')[3]) - O.ID_ROT[0]) % len(O.STUDY_IDS)
           O.execute(sv, {'kind': 'CreateStudy', 'owner': int(o), 'display': int(d), 'state': 'ACTIVE'}, cfg)
           r = O.outcome_norm('ListTrials', O.execute(sv, {'kind': 'ListTrials', 'study': name}, cfg))
           if r[0] != 'ok' or r[2]:
